@@ -310,6 +310,8 @@ type vCtl struct {
 	emtOn        bool // an edge-multi request was accepted: validity of record lengths now also depends on its parameters
 	hist         []string
 	dead         bool
+	stLabels     []string // lines the experiment-state file of the current run must hold (START, accepted labels)
+	stKnown      bool     // false when a request with an open outcome may have added or lost a line
 }
 
 func (k *vCtl) note(format string, a ...any) {
@@ -888,10 +890,19 @@ func (k *vCtl) reqWriteControl() {
 		k.wPaused = true
 	case strings.HasPrefix(up, "UNPAUSE"):
 		k.wPaused = false
+		if len(req) > 8 && w == "ok" {
+			k.stLabels = append(k.stLabels, req[8:])
+		} else if len(req) > 8 {
+			k.stKnown = false
+		}
 	case strings.HasPrefix(up, "STOP"):
+		if k.wActive && k.stKnown && w == "ok" {
+			k.checkStateFile()
+		}
 		k.wActive, k.wPaused = false, false
 		k.comment = ""
 	case strings.HasPrefix(up, "START"):
+		k.stLabels, k.stKnown = []string{"START"}, w == "ok" && fault == ""
 		k.wActive, k.wPaused = true, false
 		k.wOff = of
 		ws := k.sc.ActiveSource.ComputeWritingState()
@@ -900,6 +911,43 @@ func (k *vCtl) reqWriteControl() {
 		k.commentBad = false
 		k.c.Cov("writing_sessions", 1)
 	}
+}
+
+// checkStateFile: after an accepted STOP the experiment-state file of the run holds START, one line per accepted label request
+// (label requests and 'UNPAUSE label'), and STOP, in that order.
+func (k *vCtl) checkStateFile() {
+	files, _ := filepath.Glob(filepath.Join(k.wDir, "*_experiment_state.txt"))
+	if len(files) != 1 {
+		return
+	}
+	b, err := os.ReadFile(files[0])
+	if err != nil {
+		return
+	}
+	lines := strings.Split(strings.TrimRight(string(b), "\n"), "\n")
+	var got []string
+	for _, l := range lines {
+		if strings.HasPrefix(l, "#") {
+			continue
+		}
+		if i := strings.Index(l, ", "); i >= 0 {
+			got = append(got, l[i+2:])
+		}
+	}
+	want := append(append([]string(nil), k.stLabels...), "STOP")
+	short := func(x []string) []string {
+		out := make([]string, len(x))
+		for i, v := range x {
+			out[i] = vTrim(v, 20)
+		}
+		return out
+	}
+	if fmt.Sprint(got) != fmt.Sprint(want) {
+		k.c.Violate("c20:state-file-labels", "the experiment-state file of the run holds the lines %v; the accepted requests of the run were %v\nhistory: %v", short(got), short(want), k.hist)
+		k.dead = true
+		return
+	}
+	k.c.Cov("state_files_checked", 1)
 }
 
 func (k *vCtl) reqStateLabel() {
@@ -917,9 +965,15 @@ func (k *vCtl) reqStateLabel() {
 		want = "err" // the write fails: the caller must be told
 	}
 	var okay bool
-	k.do(fmt.Sprintf("SetExperimentStateLabel(len=%d,wait)", len(label)), want, func() error {
+	err, ret := k.do(fmt.Sprintf("SetExperimentStateLabel(len=%d,wait)", len(label)), want, func() error {
 		return k.sc.SetExperimentStateLabel(&StateLabelConfig{Label: label, WaitForError: true}, &okay)
 	})
+	switch {
+	case ret && err == nil && want == "ok":
+		k.stLabels = append(k.stLabels, label)
+	case ret && err == nil:
+		k.stKnown = false
+	}
 }
 
 func (k *vCtl) reqComment() {
@@ -1423,6 +1477,7 @@ func (k *vCtl) twoClients() {
 		return
 	}
 	k.wActive, k.wPaused, k.wOff = true, false, true
+	k.stLabels, k.stKnown = []string{"START"}, true
 	ws := k.sc.ActiveSource.ComputeWritingState()
 	k.wDir = filepath.Dir(ws.FilenamePattern)
 	k.comment, k.commentBad = "", false
